@@ -249,6 +249,8 @@ func (f *FeeQuote) Expired() bool {
 //	 }
 //  }
 func (f *FeeQuote) MarshalJSON() ([]byte, error) {
+	f.mu.RLock()
+	defer f.mu.RUnlock()
 	return json.Marshal(f.fees)
 }
 
@@ -266,6 +268,8 @@ func (f *FeeQuote) UnmarshalJSON(body []byte) error {
 		}
 		v.FeeType = k
 	}
+	f.mu.Lock()
+	defer f.mu.Unlock()
 	f.fees = fees
 	return nil
 }
